@@ -173,6 +173,31 @@ CHECKS = {
    technique="Coq proof (byte-codec lemmas + case analysis of the decoders over the concrete curve) + differential "
              "correspondence on mutated encodings",
    ref="5/C11"),
+ "C12": dict(
+   text="Coq theorems over Models/Guards.v, where every Go operation that can panic (slice index, slice expression, field "
+        "access through a nil pointer) returns Panic exactly where the Go runtime would: for EVERY batch of n public-key "
+        "messages (any uint32 indices, absent key sub-messages, undecodable keys, nil entries) genDistKeyGenerator + the own-key "
+        "search never panic and accept only well-formed, in-range, decodable, distinct-index batches (pigeonhole: n fills "
+        "without a duplicate leave no hole); decodeBytes/decodePipe, the handshake (id frame, key class, session-key slices) and "
+        "the gossip name translation never panic and accept exactly what they should; the buffer/request pair of pdkg.Loop is "
+        "total on every event history (nil / inner-nil responses, duplicates, surplus, sessions nobody asked for) and what one "
+        "session receives is a function of that session's events alone (C12_sessions_independent), likewise for the share "
+        "collector (C13 frame). The pre-repair handlers are refuted by five vm_compute witnesses, each reproduced on the real "
+        "code before its fix: commit. Tie: correspondence of the extracted model with (a) the real genDistKeyGenerator stage on "
+        "generated batches, each in its own child process, (b) the real decodeBytes, (c) a raw TCP peer speaking the transport "
+        "protocol against a real p2p server for each handshake class (accepted / rejected), (d) the real serfNet.Listen on names "
+        "of every length class, (e) the real handlePeerMsg/handleRequest on random multi-session histories. Scenario runs in "
+        "child processes (a panic in any goroutine is observed as the child's death): a 3-member key generation in which one "
+        "member sends each malformed message kind at each stage (thorough: all pairs), followed by an honest session on the same "
+        "node instances that must complete; a raw peer sending each malformed handshake / sealed frame kind to a real server that "
+        "must still answer an honest peer afterwards; crafted signature shares thrown at the collector of a running 3-node query; "
+        "arbitrary and mutated bytes to the packet decoder; grammar-generated and mutated documents and selectors to the extractor.",
+   note=TB + "partial: protobuf decoding, the AEAD, and the third-party JSONPath/XPath libraries behind dataParse have no Coq "
+        "model - the extractor and raw-byte decoder are exercised by generation only (no theorem); 'spin forever' is observed as "
+        "a 10-25 s scenario timeout, not proved; memory growth from messages for sessions nobody asked for is not judged.",
+   technique="Coq proof (partiality monad for Go panics, counting invariant, per-session frame theorem by induction over "
+             "histories) + differential correspondence + malformed-input scenarios against real nodes in child processes",
+   ref="5/C12"),
  "C13": dict(
    text="Coq theorems over the Gallina model of DosNode.queryLoop (Models/QueryLoop.v): for EVERY event sequence (arrivals, "
         "registrations, cancellations, watchdog sweeps, any interleaving, any number of requests) the shares handed to a "
@@ -205,7 +230,7 @@ CHECKS = {
 NOT_YET = {
 }
 
-PENDING = ["C01","C02","C03","C04","C05","C06","C07","C08","C10","C11","C12","C13","C14","C15","C16","C17","C18","C19","C20"]
+PENDING = ["C01","C02","C03","C04","C05","C06","C07","C08","C10","C11","C13","C14","C15","C16","C17","C18","C19","C20"]
 
 def main():
     checks = []
